@@ -52,7 +52,34 @@ def as_container(kind, subset):
         return frozenset(subset)
     if kind == "keys":
         return {k: None for k in subset}.keys()
+    # mappings are iterables of their KEYS whatever their values are (name -> column index, dict.fromkeys used as an ordered
+    # set, a sub-instance / weight table whose values happen to be 0, False, "", None ...)
+    if kind == "dict-index":
+        return {k: j for j, k in enumerate(subset)}
+    if kind == "dict-none":
+        return dict.fromkeys(subset)
+    if kind == "dict-values":
+        vals = [0.0, 1, False, "", 2.5, None, True, 0, "w"]
+        return {k: vals[(j + len(subset)) % len(vals)] for j, k in enumerate(subset)}
+    if kind == "odict-index":
+        import collections
+        return collections.OrderedDict((k, j) for j, k in enumerate(subset))
+    if kind == "mapproxy-index":
+        import types
+        return types.MappingProxyType({k: j for j, k in enumerate(subset)})
     raise ValueError(kind)
+
+
+MAPPING_KINDS = ("dict-index", "dict-none", "dict-values", "odict-index", "mapproxy-index")
+CONTAINER_KINDS = ("list", "tuple", "set", "frozenset", "keys") + MAPPING_KINDS
+
+
+def snap_container(container):
+    """Order of iteration plus, for mappings, the values (a subset handed over as a mapping must keep them too)."""
+    items = None
+    if hasattr(container, "items") and hasattr(container, "keys") and hasattr(container, "__getitem__"):
+        items = [(k, repr(container[k])) for k in container]
+    return list(container), items
 
 
 def check_call(kind, strategy, model, names, x, subset, n, inputs, results, rows_before, defaults, x_before):
@@ -62,8 +89,10 @@ def check_call(kind, strategy, model, names, x, subset, n, inputs, results, rows
         raise Bad("result-count", f"impute returned {type(results).__name__} of {len(results) if hasattr(results, '__len__') else '?'}, expected list of {n}")
     if not (x == x_before):
         raise Bad("instance-modified", f"x changed from {x_before!r} to {x!r}")
-    def intended(xi):      # x with exactly the requested features replaced, in x's own key order
-        return {k: (xi[k] if (k in sub and k in xi) else x_before[k]) for k in x_before}
+    def intended(xi):      # x with exactly the requested features replaced, in x's own key order; requested features that the
+        out = {k: (xi[k] if (k in sub and k in xi) else x_before[k]) for k in x_before}   # (sparse) instance lacks come behind
+        out.update((k, xi[k]) for k in xi if k in sub and k not in x_before)
+        return out
     if kind == "default":
         if len(inputs) < 1:
             raise Bad("no-evaluation", "model never evaluated")
@@ -79,8 +108,9 @@ def check_call(kind, strategy, model, names, x, subset, n, inputs, results, rows
             raise Bad("result-not-model-output", f"returned {r!r}; the model on x with exactly the subset replaced gives {o!r}")
     sources = set()
     for xi in inputs:
-        if set(xi.keys()) != set(x.keys()):
-            raise Bad("input-keys", f"model input keys {sorted(map(repr, xi))} differ from instance keys")
+        if set(xi.keys()) != set(x.keys()) | sub:     # (a requested feature the instance lacks is ADDED with its background value)
+            raise Bad("input-keys", f"model input keys {sorted(map(repr, xi))} differ from instance keys {sorted(map(repr, x))} "
+                                    f"plus requested features {sorted(map(repr, sub))}")
         for f in x:
             if f not in sub and not (xi[f] == x[f]):
                 raise Bad("outside-subset-changed", f"feature {f!r} not requested but {x[f]!r} -> {xi[f]!r}")
@@ -96,7 +126,7 @@ def check_call(kind, strategy, model, names, x, subset, n, inputs, results, rows
                 cands = [i for i, r in enumerate(rows_before) if r[f] == xi[f]]
                 if not cands:
                     raise Bad("not-a-stored-value", f"feature {f!r} imputed with {xi[f]!r} which no stored observation has "
-                                                    f"(instance value {x[f]!r})")
+                                                    f"(instance value {x.get(f, '<absent>')!r})")
                 src[f] = cands[0]
                 cand_sets.append(set(cands))
             # (values need not be unique across rows - sparse rows share defaults - so "the same stored observation" means:
@@ -113,14 +143,18 @@ def check_call(kind, strategy, model, names, x, subset, n, inputs, results, rows
 def main(run):
     from ixai.imputer import MarginalImputer, DefaultImputer
     run.rule = ("MarginalImputer (joint, product) and DefaultImputer driven directly: all 2^d subsets for d<=4 (sampled for d=5,6) "
-                "as list/tuple/set/frozenset/dict-keys, every storage kind and fill level >= 1, n_samples in {1,2,5}, globally "
+                "as list/tuple/set/frozenset/dict-keys/mappings with falsy and truthy values (dict, OrderedDict, mappingproxy), dense and "
+                "sparse instances (lacking requested and other features: those are added with the background value), every storage kind and fill level >= 1, n_samples in {1,2,5}, globally "
                 "unique feature values; all row choices enumerated with the scripted generator for storages of <= 3 rows, seeded "
                 "sampling beyond; plus every imputer call made by IncrementalSage/IncrementalPFI scenarios; oracle per call: "
                 "inputs agree with x outside the subset, imputed values are defaults / values of ONE (joint) or any (product) "
                 "currently stored observation, exactly n predictions equal to the pristine model, empty subset -> model(x) n times, "
                 "x / subset / storage unchanged (deep snapshots); evaluations = impute calls judged; non-trivial = distinct "
                 "(strategy, subset size, set of source rows) with a non-empty subset")
-    run.assumptions = ["subsets are re-iterable containers", "stored observations carry every explained feature"]
+    run.assumptions = ["subsets are re-iterable containers (mappings count as iterables of their keys)",
+                       "stored observations / the default table know every requested feature; the INSTANCE may lack some (sparse)"]
+    run.require_count("mapping-subset-calls", "mapping-subset-falsy-value-calls", "sparse-instance-calls",
+                      "sparse-instance-requested-absent-calls", "sparse-instance-mapping-subset-calls")
     run.require("ixai/imputer/marginal_imputer.py:MarginalImputer.impute",
                 "ixai/imputer/default_imputer.py:DefaultImputer.impute")
     rnd = random.Random(run.shard_seed)
@@ -161,15 +195,32 @@ def main(run):
             subsets = [c for r in range(d + 1) for c in itertools.combinations(names, r)]
             if len(subsets) > 16:
                 subsets = [(), tuple(names)] + rnd.sample(subsets, 14)
+        sparse_x = rnd.random() < 0.4          # sparse instances (river-style dicts: an absent key == feature not set / not yet seen)
         for si, sub in enumerate(subsets):
             x = x_small if si % 3 == 2 else x_full      # the same imputer object serves instances with different key sets
+            absent = ()
+            if sparse_x and (si % 2 == 1 or scripted):
+                # the instance lacks some features the defaults / stored observations know - requested ones and others
+                absent = [f for f in names if rnd.random() < 0.4]
+                if sub and not set(absent) & set(sub):
+                    absent.append(rnd.choice(list(sub)))
+                x = {k: v for k, v in x.items() if k not in absent}
+                run.count("sparse-instance-calls")
+                if set(absent) & set(sub):
+                    run.count("sparse-instance-requested-absent-calls")
+                    if cont in MAPPING_KINDS:
+                        run.count("sparse-instance-mapping-subset-calls")
             n = [n0, 1, n0 + 2, 2, 1][si % 5] if not scripted else n0     # ... and varying (also decreasing) n_samples
             ids0, rows0, ys0 = snap_storage(st)
             x0 = dict(x)
             container = as_container(cont, sub)
-            before = list(container)
+            before = snap_container(container)
+            if cont in MAPPING_KINDS:
+                run.count("mapping-subset-calls")
+                if any(not container[k] for k in container):
+                    run.count("mapping-subset-falsy-value-calls")
             replay = {"imputer": kind, "strategy": strategy, "d": d, "stored_rows": rows0, "n_samples": n,
-                      "subset": list(sub), "container": cont, "storage": spec}
+                      "subset": list(sub), "container": cont, "storage": spec, "instance": x0, "absent_from_instance": list(absent)}
 
             def scen(rng=None):
                 clock.reset()
@@ -195,8 +246,8 @@ def main(run):
                     ids1, rows1, ys1 = snap_storage(st)
                     if rows1 != rows0 or ys1 != ys0:      # (by value: a storage may hand out fresh copies on every read)
                         raise Bad("storage-modified", f"storage changed: {rows0!r} -> {rows1!r}")
-                    if list(container) != before or type(container) is not type(as_container(cont, sub)):
-                        raise Bad("subset-modified", f"subset {before!r} -> {list(container)!r}")
+                    if snap_container(container) != before or type(container) is not type(as_container(cont, sub)):
+                        raise Bad("subset-modified", f"subset {before!r} -> {snap_container(container)!r}")
                     if sub:
                         run.nontriv((kind, strategy, len(sub), tuple(sorted(srcs))))
                         run.see("source-rows", (kind, strategy, len(sub), tuple(sorted(srcs))))
@@ -211,7 +262,7 @@ def main(run):
         for strategy in ("joint", "product"):
             for d in (1, 2, 3):
                 spec = rnd.choice([("batch", True), ("interval", 3, True), ("uniform", 3, False), ("geometric", 3, 1.0, False)])
-                one_case("marginal", strategy, d, m, rnd.choice([1, 2]), spec, rnd.choice(["list", "set", "tuple"]), True)
+                one_case("marginal", strategy, d, m, rnd.choice([1, 2]), spec, rnd.choice(["list", "set", "tuple", "dict-index", "dict-values"]), True)
     # ---- (2) seeded sampling over the product
     for i in range(N_DIRECT[run.tier]):
         kind = rnd.choice(["marginal", "marginal", "default"])
@@ -223,7 +274,7 @@ def main(run):
         m = rnd.choice([1, 2, 3, 7, 30])
         random.seed(rnd.randrange(2 ** 31))
         names_sub = None
-        one_case(kind, strategy, d, m, rnd.choice([1, 2, 5]), spec, rnd.choice(["list", "tuple", "set", "frozenset", "keys"]), False,
+        one_case(kind, strategy, d, m, rnd.choice([1, 2, 5]), spec, rnd.choice(CONTAINER_KINDS), False,
                  subsets=names_sub)
     # ---- (3) every imputer call made by explainer scenarios
     for i in range(N_EXPL[run.tier]):
